@@ -246,6 +246,12 @@ void generate(uint64_t seed, const Str& profile, Desc& d, bool exceptions) {
                 o.a = (int64_t)faults.range(1, 4);           // fires on every a-th test
                 P.ops.push_back(o);
             }
+            if (f.procReal && faults.chance(1, 5)) {      // the child dies inside this plugin's pre or post action
+                Op o; o.phase = faults.chance(1, 2) ? PH_PRE : PH_POST; o.d = ++opLine;
+                unsigned w2 = (unsigned)faults.below(3);
+                if (w2 == 0) { o.kind = K_DIE_SIGNAL; static const int sigs[] = { 1, 2, 6, 9, 11, 13, 15, 17 }; o.a = sigs[faults.below(8)]; } else if (w2 == 1) { o.kind = K_DIE_EXIT; o.a = (int64_t)faults.range(1, 255); } else o.kind = K_DIE_ABORT;
+                P.ops.push_back(o);
+            }
             // keep ops ordered by phase
             Vec<Op> pre, post; for (size_t i = 0; i < P.ops.size(); i++) (P.ops[i].phase == PH_PRE ? pre : post).push_back(P.ops[i]);
             P.ops = pre; P.ops.insert(P.ops.end(), post.begin(), post.end());
